@@ -136,7 +136,7 @@ def resolve_problems(items):
                 if not legal_ident(f):
                     probs.append(("illegal-name", f"{it[1]}.{f!r}"))
                 if f in seen:
-                    probs.append(("duplicate-field", f"{it[1]}.{f}"))
+                    probs.append(("duplicate-field" if it[0] == "struct" else "duplicate-variant", f"{it[1]}.{f}"))
                 seen.add(f)
         for r in refs:
             if r not in defined:
@@ -198,6 +198,8 @@ def decode(items, root=None):
         if k == "vec":
             inner = of_ty(ty[1], depth + 1)
             return None if inner is None else f"(A0 {inner})"
+        if k == "tuple" and len(ty[1]) == 1:
+            return of_ty(ty[1][0], depth + 1)       # `(T)` is a parenthesised type, not a tuple
         if k == "tuple":
             parts = [of_ty(x, depth + 1) for x in ty[1]]
             if any(p is None for p in parts):
@@ -228,3 +230,38 @@ def decode(items, root=None):
         return "(V0" + "".join(parts) + ")"
 
     return of_item(items[0][1] if root is None else root)
+
+
+def canon(sx, names=True):
+    """canonical form of a shape s-expression: variants sorted by their canonical text; with
+    names=False members are compared by position (field names are the snake form of member names)"""
+    toks = sx.replace("(", " ( ").replace(")", " ) ").split()
+    pos = [0]
+
+    def rd():
+        t = toks[pos[0]]
+        pos[0] += 1
+        if t != "(":
+            return t
+        hd = toks[pos[0]]
+        pos[0] += 1
+        parts = []
+        while toks[pos[0]] != ")":
+            if hd[0] == "O":
+                pos[0] += 1                      # (
+                k = toks[pos[0]]
+                pos[0] += 1
+                v = rd()
+                pos[0] += 1                      # )
+                parts.append((k, v))
+            else:
+                parts.append(rd())
+        pos[0] += 1
+        if hd[0] == "O":
+            if names:
+                return "(" + hd + "".join(f" ({k} {v})" for k, v in sorted(parts)) + ")"
+            return "(" + hd + "".join(f" (_ {v})" for k, v in parts) + ")"
+        if hd[0] == "V":
+            parts = sorted(parts)
+        return "(" + hd + "".join(" " + x for x in parts) + ")"
+    return rd()
